@@ -135,6 +135,10 @@ def run(ctx):
         if isinstance(e, ast.Name) and e.id == alias_p:
             why.append('alias')
             continue
+        # a helper of the key path applied to the serialized text (the helper itself is scanned by C06.a)
+        while isinstance(e, ast.Call) and len(e.args) == 1 and not e.keywords and isinstance(e.func, ast.Attribute) and \
+                any(fi.name == e.func.attr for fi in path):
+            e = e.args[0]
         if isinstance(e, ast.Call) and isinstance(e.func, ast.Name) and e.func.id == 'encode':
             enc_args.append(e.args[0] if e.args else None)
             why.append('encode(%s)' % norm(e.args[0])[:50])
